@@ -1433,6 +1433,19 @@ def m_array_iter_next(eng, st, args, info):
     return [(st, _opt_some(elems[i]))]
 
 
+def m_bool_then_some(eng, st, args, info):
+    """bool::then_some(self, v): Some(v) if self else None; an opaque bool splits the path."""
+    b, v = args
+    if is_const(b):
+        return [(st, _opt_some(v) if b[1] else OPT_NONE)]
+    outs = []
+    for val in (1, 0):
+        s = st.fork()
+        s.cond.append((eng.freeze(s, b), val))
+        outs.append((s, _opt_some(v) if val else OPT_NONE))
+    return outs
+
+
 def m_option_is(which):
     def m(eng, st, args, info):
         o = eng.deref_value(st, args[0])
@@ -1786,6 +1799,8 @@ DEFAULT_MODELS = {
     "core::option::Option::unwrap_or": m_unwrap_or,
     "core::bool::then": m_bool_then,
     "core::bool::<impl bool>::then": m_bool_then,
+    "core::bool::then_some": m_bool_then_some,
+    "core::bool::<impl bool>::then_some": m_bool_then_some,
     "core::cell::Cell::replace": m_cell_replace,
     "core::cmp::Ordering::then": m_then,
     "core::iter::traits::iterator::Iterator::any": m_iter_any,
